@@ -41,7 +41,7 @@ def run(tier):
             rng.shuffle(rest)
             cases = small + rest[:800]
         # very long refused paths (the model's alphabet has one "long" component; these go beyond it)
-        for big in ("XL", "CTL", "BSL"):
+        for big in ("XL", "CTL", "BSL", "U2", "U2a", "U3", "U3a", "U3b", "U4", "U4a"):
             cases += [{"abs": False, "comps": ["..", big]}, {"abs": True, "comps": [big]}, {"abs": False, "comps": [big, "..", "n"]},
                       {"abs": False, "comps": ["d", big, "..", "..", "..", "n"]}]
         log(f"[C11] PathGuard: {r.distinct} states, {len(cases)} paths to send")
